@@ -2,10 +2,12 @@
 package props
 
 import (
+	"github.com/GuanceCloud/platypus/internal/verifsim/c09"
 	"github.com/GuanceCloud/platypus/internal/verifsim/c14"
 	"github.com/GuanceCloud/platypus/internal/verifsim/core"
 )
 
 func init() {
+	core.Register(c09.Prop{})
 	core.Register(c14.Prop{})
 }
